@@ -34,8 +34,17 @@ func VerifArbitrary(size int) *Buffer {
 	if size == 0 {
 		return &Buffer{bs: make([][]byte, 2), isEmpty: true}
 	}
-	r := verifrt.Concretize(verifrt.Int("r", 0, size-1))
-	w := verifrt.Concretize(verifrt.Int("w", 0, size-1))
+	var r, w int
+	if size > 64 {
+		// a ring in the kilobyte range (capacities above 4 KiB are not powers of two: 5120, 6400, 8000 ...):
+		// read and write positions at the edges, around 1 KiB and around the 4 KiB mark
+		pos := []int{0, 1, 1023, 1024, 4095, 4096, size - 1}
+		r = pos[verifrt.Choice("r", len(pos))]
+		w = pos[verifrt.Choice("w", len(pos))]
+	} else {
+		r = verifrt.Concretize(verifrt.Int("r", 0, size-1))
+		w = verifrt.Concretize(verifrt.Int("w", 0, size-1))
+	}
 	empty := verifrt.Concretize(verifrt.Ite(verifrt.Bool("empty"), 1, 0)) == 1
 	rb := VerifForge(size, r, w, empty, verifrt.Bytes("mem", size))
 	verifrt.Assume(rb.VerifInv())
